@@ -42,6 +42,14 @@ type Resp struct {
 	ErrCode   string // "code" of the last document when it is an error object
 	ErrMsg    string // "message" of the last document when it is an error object
 	Opaque    bool   // the final handler is a wrapped net/http handler (swagger, pprof, metrics)
+	Body      any    // what was written: natively the body text, symbolically the documents handed to c.JSON
+}
+
+// SameAnswer: two responses have the same status and the same body.
+func SameAnswer(a, b Resp) bool {
+	as, _ := a.Body.(string)
+	bs, _ := b.Body.(string)
+	return a.Status == b.Status && as == bs
 }
 
 // NewEngine returns an engine without routes.
@@ -116,7 +124,7 @@ func Serve(e *gin.Engine, method, pattern string, req Req) Resp {
 	}
 	w := httptest.NewRecorder()
 	e.ServeHTTP(w, hr)
-	resp := Resp{Status: w.Code, Panicked: w.Header().Get("X-Vh-Panicked") == "1"}
+	resp := Resp{Status: w.Code, Panicked: w.Header().Get("X-Vh-Panicked") == "1", Body: w.Body.String()}
 	dec := json.NewDecoder(bytes.NewReader(w.Body.Bytes()))
 	for {
 		var doc any
